@@ -97,6 +97,9 @@ func (win Window) Print(segs ...Segment) (col int, row int)
   ensures C11_contain: OutsideKept(win)
   loop 1 invariant keep: OutsideKept(win)
   loop 2 invariant keep: OutsideKept(win)
+  -- a new row is started when the row is full: no cluster is placed at a column at or beyond the width
+  loop 1 invariant C11_rowfull: cols > 0 ==> col < cols
+  loop 2 invariant C11_rowfull: cols > 0 ==> col < cols
 
 func (win Window) PrintTruncate(row int, segs ...Segment)
   requires ok: WinOK(win)
@@ -104,6 +107,8 @@ func (win Window) PrintTruncate(row int, segs ...Segment)
   ensures C11_contain: OutsideKept(win)
   loop 1 invariant keep: OutsideKept(win)
   loop 2 invariant keep: OutsideKept(win)
+  -- a cluster is placed as itself only if it and the truncation mark after it fit in what is left of the row
+  cut "win.SetCell(col, row, cell)" @2 C11_fits: col + 1 + w <= cols
 
 func (win Window) Println(row int, segs ...Segment)
   requires ok: WinOK(win)
@@ -111,6 +116,8 @@ func (win Window) Println(row int, segs ...Segment)
   ensures C11_contain: OutsideKept(win)
   loop 1 invariant keep: OutsideKept(win)
   loop 2 invariant keep: OutsideKept(win)
+  -- a cluster is placed only if all of it fits in what is left of the row
+  cut "win.SetCell(col, row, cell)" C11_fits: col + w <= cols
 
 func (win Window) Wrap(segs ...Segment) (col int, row int)
   requires ok: WinOK(win)
